@@ -585,6 +585,13 @@ def call_type(I, T, args, kw):
 
 
 def call_builtin_method(I, obj, name, args, kw):
+    if isinstance(obj, Opaque):
+        obs = getattr(I.ctx, "observations", None)
+        if obs is None:
+            obs = I.ctx.observations = []
+        res = _fresh_opaque(I, obj, name)
+        obs.append(dict(op=name, obj=obj, args=args, kwargs=kw, result=res))
+        return res
     if isinstance(obj, list):
         if name == "append":
             obj.append(args[0])
@@ -695,12 +702,32 @@ def call_builtin_method(I, obj, name, args, kw):
 # ---- opaque objects (tier A) ---------------------------------------------------------------
 
 
+_OPAQUE_METHODS = {"sum", "mean", "reshape", "astype", "copy", "ravel", "squeeze", "transpose", "compute", "rechunk",
+                   "conj", "real", "imag"}
+
+
+def _fresh_opaque(I, like, what):
+    from .contracts import opq_sort
+
+    return Opaque(z3.Const(I.ctx.fresh_name(what), opq_sort(like.tag)), like.tag)
+
+
 def opaque_attr(I, obj, name):
+    """Array-like opaque values: methods return fresh opaque values and are recorded as observations."""
+    from .interp import BuiltinMethod
+
+    if name in _OPAQUE_METHODS:
+        return BuiltinMethod(obj, name)
     raise Unsupported(f"attribute {name} of opaque {obj.tag}")
 
 
 def opaque_getitem(I, obj, idx):
-    raise Unsupported("subscript of opaque")
+    obs = getattr(I.ctx, "observations", None)
+    if obs is None:
+        obs = I.ctx.observations = []
+    res = _fresh_opaque(I, obj, "item")
+    obs.append(dict(op="getitem", obj=obj, index=idx, result=res))
+    return res
 
 
 def opaque_len(I, obj):
@@ -1173,3 +1200,9 @@ def a_unpack_distributions(I, args, kw):
     if len(args) == 0:
         return (), Fraction(1)
     return tuple(args), Fraction(1)
+
+
+@_ext("abtem.measurements._reduced_scanned_images_or_line_profiles")
+def a_reduced_images(I, args, kw):
+    I.ctx.trusted.add("ASSUMED contract: _reduced_scanned_images_or_line_profiles wraps the integrated array unchanged")
+    return args[0]
